@@ -9,6 +9,7 @@ from __future__ import annotations
 import numpy as np
 
 import common
+from gen import translate_small
 from common import g_bool, g_float
 from drivers import dense, tracing
 from drivers.C14 import HEADER as WHEADER
@@ -30,6 +31,11 @@ def params(T, dt, sampling=True, order=2, solver="TJM"):
 
     return AnalogSimParams([Observable("z", 0)], elapsed_time=T, dt=dt, order=order, sample_timesteps=sampling,
                            solver=solver, show_progress=False)
+
+
+def regenerate(ctx):
+    """coq/Gen/SmallGen.v from the current source of check_if_identity / AnalogSimParams.times / the scheduled-jump tests (fail closed)"""
+    translate_small.regenerate()
 
 
 def correspond(ctx):
